@@ -65,4 +65,61 @@ if data.get("foreign") is not None:
     for s in data["foreign"]:
         out["foreign_dec"].append(attempt(fast_json.loads, s) if s is not None else ("err", "no encoding"))
         out["foreign_dec_bytes"].append(attempt(fast_json.loads, s.encode("utf-8")) if isinstance(s, str) else ("err", "no encoding"))
+# ---- very deep values (built here: neither pickle nor a recursive comparator is involved) -----------------
+def build_deep(kind, depth, leaf):
+    v = leaf
+    for i in range(depth):
+        as_list = kind == "l" or (kind == "m" and i % 2 == 0)
+        v = [v] if as_list else {"k": v}
+    return v
+
+
+def expected_text(kind, depth, leaf, ascii_only=True):
+    import json as _j
+    opens, closes = [], []
+    for i in range(depth):
+        as_list = kind == "l" or (kind == "m" and i % 2 == 0)
+        opens.append("[" if as_list else '{"k":')
+        closes.append("]" if as_list else "}")
+    return "".join(reversed(opens)) + _j.dumps(leaf, separators=(",", ":"), ensure_ascii=ascii_only) + "".join(closes)
+
+
+def walk_down(v, kind, depth):
+    for i in reversed(range(depth)):
+        as_list = kind == "l" or (kind == "m" and i % 2 == 0)
+        if as_list:
+            if not (isinstance(v, list) and len(v) == 1):
+                return ("bad", i)
+            v = v[0]
+        else:
+            if not (isinstance(v, dict) and list(v) == ["k"]):
+                return ("bad", i)
+            v = v["k"]
+    return ("leaf", v)
+
+
+out["deep"] = []
+for kind, depth, leaf in data.get("deep") or []:
+    rec = {}
+    v = build_deep(kind, depth, leaf)
+    exp = expected_text(kind, depth, leaf)
+    exp_raw = expected_text(kind, depth, leaf, ascii_only=False)
+    for form, kw in (("enc", {}), ("enc_kw", dict(indent=None, separators=(",", ":"), default=str))):
+        r = attempt(fast_json.dumps, v, **kw)
+        if r[0] == "ok":
+            txt = r[1]
+            rec[form] = ("ok", isinstance(txt, str) and txt.replace(" ", "") in (exp, exp_raw), isinstance(txt, str) and ("\n" in txt or "\r" in txt))
+        else:
+            rec[form] = r
+    for form, text in (("dec_compact", exp), ("dec_spaced", exp.replace(":", ": ")), ("dec_bytes", exp.encode("utf-8"))):
+        r = attempt(fast_json.loads, text)
+        rec[form] = ("ok", walk_down(r[1], kind, depth)) if r[0] == "ok" else r
+    def file_rt(v=v):
+        fp = io.StringIO()
+        fast_json.dump(v, fp)
+        fp.seek(0)
+        return walk_down(fast_json.load(fp), kind, depth)
+    rec["file"] = attempt(file_rt)
+    out["deep"].append(rec)
+    del v
 pickle.dump(out, open(outp, "wb"))
